@@ -347,7 +347,11 @@ impl<'a> Gen<'a> {
                     Stmt::Do(op("get", vec![t, imm(self.index(len)), imm(scalar(self.rng))]))
                 }
             }
-            31 => Stmt::Do(op("contains", vec![t, imm(scalar(self.rng))])),
+            31 => {
+                // deep equality against scalars, existing containers and fresh literals
+                let v = if self.rng.chance(1, 2) { imm(scalar(self.rng)) } else { self.value(d, ps, 1).0 };
+                Stmt::Do(op("contains", vec![t, v]))
+            }
             32..=33 => Stmt::Let(slot, op("index", vec![t, imm(self.index(len))])),
             34..=35 => Stmt::Let(slot, op("index", vec![t, imm(self.range(len))])),
             36 => {
